@@ -564,6 +564,7 @@ def Stmt.listing (s : Stmt) : Option Str := do
 
 /-- `"${} {}".format(value.hex().ljust(4, ' '), symbol)` for every entry of the final symbol table -/
 def symtabLines (t : SymTab) : Option (List Str) :=
-  t.mapM (fun (k, v) => (v.hex?).map (fun h => ['$'] ++ ljust 4 h ++ [' '] ++ k))
+  -- a negative value is listed as its 16-bit two's complement, however it was defined (fix 21fb0e5)
+  t.mapM (fun (k, v) => (if v.isNegative then v.hex? 4 else v.hex?).map (fun h => ['$'] ++ ljust 4 h ++ [' '] ++ k))
 
 end CoCo.Asm
